@@ -208,7 +208,11 @@ def setup_tunables(component, cname: str, prefix: Optional[str] = "components") 
             key = f"{prefix}/{n}"
 
         topic = prop._topic_type(NetworkTables.getTopic(key))
-        ntvalue = topic.getEntry(prop._ntdefault)
+        if isinstance(topic, ntcore.RawTopic):
+            # raw topics need a type string in addition to the default
+            ntvalue = topic.getEntry("raw", prop._ntdefault)
+        else:
+            ntvalue = topic.getEntry(prop._ntdefault)
         if prop._ntwritedefault:
             ntvalue.set(prop._ntdefault)
         else:
